@@ -1,3 +1,3 @@
 From Coq Require Import ExtrOcamlBasic.
-From CppUVerif Require Import C13_Life.
-Extraction "c13_model.ml" C13_Life.run_scn C13_Life.spec_scn C13_Life.valid_scn.
+From CppUVerif Require Import C13_Life C13_Alias.
+Extraction "c13_model.ml" C13_Alias.run_x C13_Alias.spec_x C13_Alias.valid_x.
